@@ -122,3 +122,80 @@ impl<T> fmt::Debug for AtomicPtr<T> {
         self.deref().fmt(fmt)
     }
 }
+
+// With `--cfg may_verif` every access through the wrappers passes a verification point first
+// (inherent methods shadow the `Deref` target's), so the queue algorithms need no extra lines.
+#[cfg(may_verif)]
+mod verif_points {
+    use super::{AtomicPtr, AtomicUsize};
+    use crate::verif::{addr, pt};
+    use std::ops::Deref;
+    use std::sync::atomic::Ordering;
+
+    impl AtomicUsize {
+        #[inline]
+        pub(crate) fn load(&self, o: Ordering) -> usize {
+            pt("q.load", addr(self), 0, 0);
+            self.deref().load(o)
+        }
+        #[inline]
+        pub(crate) fn store(&self, v: usize, o: Ordering) {
+            pt("q.store", addr(self), v, 0);
+            self.deref().store(v, o)
+        }
+        #[inline]
+        pub(crate) fn swap(&self, v: usize, o: Ordering) -> usize {
+            pt("q.swap", addr(self), v, 0);
+            self.deref().swap(v, o)
+        }
+        #[inline]
+        pub(crate) fn fetch_add(&self, v: usize, o: Ordering) -> usize {
+            pt("q.rmw", addr(self), v, 1);
+            self.deref().fetch_add(v, o)
+        }
+        #[inline]
+        pub(crate) fn fetch_sub(&self, v: usize, o: Ordering) -> usize {
+            pt("q.rmw", addr(self), v, 2);
+            self.deref().fetch_sub(v, o)
+        }
+        #[inline]
+        pub(crate) fn compare_exchange(&self, c: usize, n: usize, s: Ordering, f: Ordering) -> Result<usize, usize> {
+            pt("q.cas", addr(self), c, n);
+            self.deref().compare_exchange(c, n, s, f)
+        }
+        #[inline]
+        pub(crate) fn compare_exchange_weak(&self, c: usize, n: usize, s: Ordering, f: Ordering) -> Result<usize, usize> {
+            pt("q.cas", addr(self), c, n);
+            // a verified run must not fail spuriously: use the strong form
+            self.deref().compare_exchange(c, n, s, f)
+        }
+    }
+
+    impl<T> AtomicPtr<T> {
+        #[inline]
+        pub(crate) fn load(&self, o: Ordering) -> *mut T {
+            pt("q.load", addr(self), 0, 0);
+            self.deref().load(o)
+        }
+        #[inline]
+        pub(crate) fn store(&self, v: *mut T, o: Ordering) {
+            pt("q.store", addr(self), v as usize, 0);
+            self.deref().store(v, o)
+        }
+        #[inline]
+        pub(crate) fn swap(&self, v: *mut T, o: Ordering) -> *mut T {
+            pt("q.swap", addr(self), v as usize, 0);
+            self.deref().swap(v, o)
+        }
+        #[inline]
+        pub(crate) fn compare_exchange(&self, c: *mut T, n: *mut T, s: Ordering, f: Ordering) -> Result<*mut T, *mut T> {
+            pt("q.cas", addr(self), c as usize, n as usize);
+            self.deref().compare_exchange(c, n, s, f)
+        }
+        #[inline]
+        pub(crate) fn compare_exchange_weak(&self, c: *mut T, n: *mut T, s: Ordering, f: Ordering) -> Result<*mut T, *mut T> {
+            pt("q.cas", addr(self), c as usize, n as usize);
+            self.deref().compare_exchange(c, n, s, f)
+        }
+    }
+}
